@@ -101,14 +101,20 @@ DROPOUT_MODEL = 2.0 / 3.0
 DROPOUT_OUT = 0.5
 
 
+# Like every loaded model the toy LM also has PARAMETERS THAT REQUIRE GRAD and take part in the computation (a weight equal to 1.0 in
+# the recurrent part and in the output layer: exact in float64).  Where autograd is enabled - the torch default, and the mode every new
+# thread starts in - states and scores then carry a graph unless the wrapper switches autograd off around ITS OWN calls
+# (`with torch.no_grad()` / `.detach()`); a wrapper that relies on a mode set once elsewhere fails (`.numpy()` raises) as soon as a page is
+# decoded in another thread or after other code re-enabled autograd (run_history, ENVS).
 class _WModel(torch.nn.Module):
     def __init__(self):
         super().__init__()
         self.drop = torch.nn.Dropout(DROPOUT_MODEL)
+        self.unit = torch.nn.Parameter(torch.ones(1, dtype=torch.float64))
 
     def forward(self, xs, hs):
         h = hs.clone()
-        emb = self.drop(xs.to(h.dtype))               # "embedding" of a symbol = its number; dropout on the embedding
+        emb = self.drop(xs.to(h.dtype)) * self.unit   # "embedding" of a symbol = its number (weight 1.0); dropout on the embedding
         for j in range(xs.shape[1]):
             h = h * WBASE + emb[:, j].view(1, -1, 1)
         return None, h
@@ -122,13 +128,14 @@ class _WOut(torch.nn.Module):
         super().__init__()
         self.nc = nc
         self.drop = torch.nn.Dropout(DROPOUT_OUT)
+        self.gain = torch.nn.Parameter(torch.ones(1, dtype=torch.float64))
 
     def forward(self, hs):
         rows = []
         for x in hs.reshape(-1).tolist():
             hh = hist_hash(hist_of_scalar(x))
             rows.append([0.0] + [np.log(3.0) if (hh + c) % 2 == 0 else 0.0 for c in range(self.nc)])
-        return self.drop(torch.tensor(rows, dtype=torch.float64))
+        return self.drop(torch.tensor(rows, dtype=torch.float64) * self.gain)
 
 
 class _WLm(torch.nn.Module):        # module-level classes: parse_folder --process-count 2 pickles the page parser
@@ -289,8 +296,50 @@ def alone_results(cfgid, pages, nlines, nk):
     return out
 
 
-def run_history(cfgid, pages, nlines, nk, history, alone=None):
-    """history = [(worker, page), ...]; one long-lived PageDecoder per worker, as in parse_folder's Pool"""
+# Where a process_page call of a history is executed (the page and the configuration are the same, so must be the result):
+#   "main"    in the thread that built the decoder, nothing else touched (every call of the plain histories);
+#   "thread"  in a worker THREAD of the same process (threading.Thread, as a ThreadPoolExecutor / threaded service would do) - torch's
+#             autograd mode is thread-local and a new thread starts with autograd enabled;
+#   "grad-on" in the building thread after OTHER code of the process called torch.set_grad_enabled(True) (the torch default; e.g. a
+#             training step of another model); the previous mode is restored after the call so that the harness stays unaffected.
+ENVS = ("main", "thread", "grad-on")
+
+
+def envs_for(cfgid, n_hist, ncalls):
+    """environment of every call of the n_hist-th environment history of a configuration: a rotation of ENVS, so that every
+    environment comes at every position and follows every other one"""
+    return [ENVS[(j + cfgid // 2 + n_hist) % 3] for j in range(ncalls)]
+
+
+def call_in_env(env, func):
+    """run func() in the given environment; returns the exception it raised (or None)"""
+    box = {"ex": None}
+
+    def body():
+        try:
+            func()
+        except Exception as ex:       # part of the observation
+            box["ex"] = ex
+    if env == "thread":
+        import threading
+        th = threading.Thread(target=body)
+        th.start()
+        th.join()
+    elif env == "grad-on":
+        prev = torch.is_grad_enabled()
+        torch.set_grad_enabled(True)
+        try:
+            body()
+        finally:
+            torch.set_grad_enabled(prev)
+    else:
+        body()
+    return box["ex"]
+
+
+def run_history(cfgid, pages, nlines, nk, history, alone=None, envs=None):
+    """history = [(worker, page), ...]; one long-lived PageDecoder per worker, as in parse_folder's Pool;
+    envs = environment of every call (one of ENVS; default: every call in "main")"""
     carry, kinds = decode_cfg(cfgid, pages, nlines, nk)
     n_total = len(pages) * nlines
     if alone is None:
@@ -301,7 +350,8 @@ def run_history(cfgid, pages, nlines, nk, history, alone=None):
     # PageLayout object (as when a caller re-runs the decoder on a page it holds), otherwise a fresh copy of the page
     reuse = (cfgid // 2 + len(history)) % 2 == 0
     held = {}
-    for worker, page in history:
+    for n_call, (worker, page) in enumerate(history):
+        env = envs[n_call] if envs else "main"
         if worker not in inst:
             inst[worker] = make_page_decoder(carry, kinds, n_total, flavour=flavour_of(cfgid))
         pd, rec = inst[worker]
@@ -311,20 +361,22 @@ def run_history(cfgid, pages, nlines, nk, history, alone=None):
         if pl is None:
             pl = make_page(page, kinds, nlines, n_total)
             held[page] = pl
-        try:
-            pd.process_page(pl)
-        except Exception as ex:  # part of the observation
+        ex = call_in_env(env, lambda: pd.process_page(pl))
+        if ex is not None:
             outcome = "exception:" + type(ex).__name__
         last_line = pd.last_line
         has_h = pd.last_h is not None
-        calls.append({"page": page, "worker": worker, "outcome": outcome,
+        calls.append({"page": page, "worker": worker, "outcome": outcome, "env": env,
                       "decodes": [{"line": ln, "from": tags_of_history(h, nlines) if h is not None else []}
                                   for ln, h in rec.calls],
                       "res": results_of(pl), "alone": alone[page],
                       "last_line": tag_of_text(text_codes(last_line), nlines) if last_line else [],
                       "has_h": bool(has_h),
                       "last_h": tags_of_history(hist_of(pd.last_h), nlines) if has_h else []})
-    return {"cfgid": cfgid, "hist": [[w, p] for w, p in history], "calls": calls}
+    tr = {"cfgid": cfgid, "hist": [[w, p] for w, p in history], "calls": calls}
+    if envs:
+        tr["envs"] = list(envs)
+    return tr
 
 
 # ------------------------------------------------------------------ the schedule clause: through parse_folder.main()
